@@ -643,10 +643,19 @@ Section HilbertND.
   Context {T : Type} (N : Num T).
   Variable ifft1 : (nat -> @cx T) -> nat -> Z -> @cx T.
 
-  (* every way rfft_to_hilbert can fail, in the order of the code *)
+  (* every way rfft_to_hilbert can fail, in the order of the code.
+     REPAIRED (model repair of the 0-d branch): the first conjunct used to read
+       shape = [] -> r = inl HIndexError
+     which is false of the library for n < 1: with xf.ndim == 0 the code sets h = 1.0 and calls
+     scipy.fftpack.ifft(h * xf, n, axis), and scipy checks n before it looks at the axis, so
+     rfft_to_hilbert(np.array(1+0j), 0) raises ValueError("invalid number of data points (0)
+     specified") for every axis; only for n >= 1 the outcome is IndexError("tuple index out of
+     range").  The conjunct is now two: 0-d and n < 1 -> HValueError; 0-d and 1 <= n -> HIndexError
+     (in both, whatever the axis).  The three conjuncts on n-d inputs are unchanged. *)
   Lemma rfft_to_hilbert_errors shape xf n axis :
     let r := rfft_to_hilbert N ifft1 shape xf n axis in
-    (shape = [] -> r = inl HIndexError) /\
+    (shape = [] -> n < 1 -> r = inl HValueError) /\
+    (shape = [] -> 1 <= n -> r = inl HIndexError) /\
     (shape <> [] -> (axis < - Z.of_nat (length shape) \/ Z.of_nat (length shape) <= axis) -> r = inl HIndexError) /\
     (forall ax, shape <> [] -> py_index (Z.of_nat (length shape)) axis = Some ax ->
        hilbert_table n (nth ax shape O) = None -> r = inl HIndexError) /\
@@ -654,12 +663,42 @@ Section HilbertND.
        hilbert_table n (nth ax shape O) = Some h -> n < 1 -> r = inl HValueError).
   Proof.
     cbv zeta. unfold rfft_to_hilbert. repeat split.
-    - intros ->. reflexivity.
+    - intros -> Hn. replace (n <? 1) with true by lia. reflexivity.
+    - intros -> Hn. replace (n <? 1) with false by lia. reflexivity.
     - intros Hs Hax. destruct shape as [|s0 shape']; [congruence|]. rewrite py_index_none by exact Hax. reflexivity.
     - intros ax Hs Hax Ht. destruct shape as [|s0 shape']; [congruence|]. rewrite Hax, Ht. reflexivity.
     - intros ax h Hs Hax Ht Hn. destruct shape as [|s0 shape']; [congruence|]. rewrite Hax, Ht.
       replace (n <? 1) with true by lia. reflexivity.
   Qed.
+
+  (* the priority of the two error kinds, as an equivalence (added with the repair of the 0-d
+     branch): ValueError exactly when n < 1 AND nothing raised IndexError before scipy's check of
+     n — a 0-d input (no shape lookup, no table), or an n-d input whose axis exists and whose
+     table could be written *)
+  Lemma rfft_to_hilbert_value_error_iff shape xf n axis :
+    rfft_to_hilbert N ifft1 shape xf n axis = inl HValueError <->
+    n < 1 /\ (shape = [] \/
+              exists ax h, py_index (Z.of_nat (length shape)) axis = Some ax /\
+                           hilbert_table n (nth ax shape O) = Some h).
+  Proof.
+    unfold rfft_to_hilbert. destruct shape as [|s0 shape'].
+    - destruct (Z.ltb_spec n 1) as [Hn|Hn].
+      + split; [intros _; split; [exact Hn | left; reflexivity] | reflexivity].
+      + split; [discriminate | intros [Hn' _]; lia].
+    - destruct (py_index (Z.of_nat (length (s0 :: shape'))) axis) as [ax|] eqn:Hax.
+      2:{ split; [discriminate|]. intros [_ [Hs|(ax & h & Hax' & _)]]; discriminate. }
+      destruct (hilbert_table n (nth ax (s0 :: shape') O)) as [h|] eqn:Ht.
+      2:{ split; [discriminate|]. intros [_ [Hs|(ax' & h & Hax' & Ht')]]; [discriminate|].
+          injection Hax' as <-. rewrite Ht in Ht'. discriminate. }
+      destruct (Z.ltb_spec n 1) as [Hn|Hn].
+      + split; [|reflexivity]. intros _. split; [exact Hn|]. right. exists ax, h. split; [reflexivity | exact Ht].
+      + split; [discriminate | intros [Hn' _]; lia].
+  Qed.
+
+  (* a 0-d input never succeeds and its outcome does not depend on the axis (added with the repair) *)
+  Lemma rfft_to_hilbert_0d xf n axis :
+    rfft_to_hilbert N ifft1 [] xf n axis = inl (if n <? 1 then HValueError else HIndexError).
+  Proof. unfold rfft_to_hilbert. destruct (n <? 1); reflexivity. Qed.
 
   (* success: the shape keeps its number of dimensions, the frequency axis is replaced IN PLACE by n
      samples, every other axis is unchanged; entries: the 1-D inverse transform along that axis *)
